@@ -371,8 +371,19 @@ func (api *API) decodeArray(ctx context.Context, b []byte, value reflect.Value, 
 		return deseri.Done()
 	}
 
-	// if it is an array of objects, handle the array like a slice
-	return api.decodeSlice(ctx, b, sliceValue, sliceValueType, ts, opts)
+	// if it is an array of objects, handle the array like a slice: decode into an empty (addressable) slice and copy
+	// the elements into the array afterwards
+	decodedSliceValue := reflect.New(sliceValueType).Elem()
+	bytesRead, err := api.decodeSlice(ctx, b, decodedSliceValue, sliceValueType, ts, opts)
+	if err != nil {
+		return 0, err
+	}
+	if decodedSliceValue.Len() != value.Len() {
+		return 0, ierrors.Errorf("can't fill array of length %d with %d decoded elements", value.Len(), decodedSliceValue.Len())
+	}
+	fillArrayFromSlice(value, decodedSliceValue)
+
+	return bytesRead, nil
 }
 
 func (api *API) decodeSlice(ctx context.Context, b []byte, value reflect.Value,
